@@ -23,7 +23,7 @@ var (
 	TextField     = "msg" // multi-valued (as a text field's words)
 	NumField      = "num" // single-valued, numeric-looking values (plus a few non-numbers)
 
-	svcVals   = []string{"a", "ab", "abc", "abab", "b", "ba", "bab", "abba", "x*y", "a b", "é", "ab-1", "aé", "zz", "", "a\"b", "a'b", `a\b`, "a`b"}
+	svcVals   = []string{"a", "ab", "abc", "abab", "b", "ba", "bab", "abba", "x*y", "a b", "é", "ab-1", "aé", "zz", "", "a\"b", "a'b", `a\b`, "a`b", "a|b", "a|b|c"}
 	lvlVals   = []string{"info", "warn", "error", "debug", "inf", "err"}
 	traceVals = []string{"t0", "t1", "t2", "t3", "t4", "t5", "t6", "t7", "t8", "t9", "t10", "t11", "t100", "t101"}
 	msgVals   = []string{"get", "post", "put", "ok", "fail", "failed", "timeout", "time", "user", "users", "x1", "x2", "x10", "код", "ошибка"}
